@@ -50,6 +50,9 @@ type Spec struct {
 	UID        int      `json:"uid"`
 	DirState   string   `json:"dir_state"` // exists missing missing-deep file
 	Path       string   `json:"path"`
+	PadTo      int64  `json:"pad_to,omitempty"`  // at execution, document PadDoc is padded so that with identifier PadID it encodes to exactly this size
+	PadDoc     int    `json:"pad_doc,omitempty"`
+	PadID      int    `json:"pad_id,omitempty"`
 	Aligned    int    `json:"aligned,omitempty"` // some (document, identifier) pair encodes to an exact multiple of this size
 	Path2      string   `json:"path2,omitempty"` // a second directory the same FileSystem value may be re-pointed at
 	Cwd        string   `json:"cwd,omitempty"`
